@@ -306,6 +306,9 @@ func InstallHook(b *Base, decode func(key, val []byte) Ev) {
 		}
 	}
 	verifhook.Hook = func(ctx context.Context, site string, key []byte, val []byte) error {
+		if site == "store.open" {
+			return nil // only of interest to the file tracer (repository tests as trace sources)
+		}
 		rid := Rid(ctx)
 		var k string
 		if len(key) >= 48 {
